@@ -86,6 +86,10 @@ def make(kind, kwargs, hidden=None):
         return "v%012x" % enc(kwargs)
     if t == "bool":
         return bool(enc(kwargs) & 1)
+    if t == "emptymember":      # (count, indices) with nothing found: a member that is an empty list / array, or a dict
+        import numpy as np
+        v = float(enc(kwargs))
+        return [(v, []), (v, np.array([])), (v, {"k": v}), ([], v)][enc(kwargs, "m") % 4]
     if t == "npbool":     # what a comparison of numpy scalars / ndarray.all() returns
         import numpy as np
         return np.bool_(enc(kwargs) & 1)
